@@ -26,6 +26,12 @@ import (
 //	       component prints <p data-m=M>tM</p> (through a v-if on its prop p0)
 //	probe: <p data-m=M v-show=Cond :data-x=Cond :class="{k: Cond}">tM</p> - the other consumers
 //	       of truthiness; its expected text is tM+attr+k (truthy) or tM+hidden (falsy)
+//	slotted: <template include="slotfor.vuego" mk=M :items=List><template v-slot="{ Var }">kids
+//	       </template></template>; the component renders <div data-m=M v-for="it in items">tM-{{ it.id }}
+//	       <slot :Var="it"></slot></div> - the same slot content is used once per item (twice per
+//	       item with Twice), each use with that item as slot prop, so the expected outline is that
+//	       of a loop over List whose body is kids
+//	Pre / Once on a later chain member: the member also carries v-pre / v-once
 //
 // An elif / else node that does not continue a chain is an orphan.
 type Node struct {
@@ -37,6 +43,9 @@ type Node struct {
 	Sep   string `json:"sep,omitempty"` // what precedes the node: "" | "w" | "c" | "wcw"
 	List  string `json:"list,omitempty"`
 	Var   string `json:"var,omitempty"`
+	Pre   bool   `json:"pre,omitempty"`   // member also carries v-pre (leaf members only)
+	Once  bool   `json:"once,omitempty"`  // member also carries v-once
+	Twice bool   `json:"twice,omitempty"` // slotted: the component uses its slot twice per item
 	Props int    `json:"props,omitempty"` // include: number of props p0.. passed to the component
 	Kids  []Node `json:"kids,omitempty"`
 }
@@ -147,12 +156,21 @@ type stats struct {
 	depth       int
 	forElse     []*Node // region of C03-vfor-on-else-member: chosen non-first members carrying v-for
 	forIfElif   []*Node // region of C03-vfor-on-if-member: falsy first member carrying v-for, next member v-else-if
+	forIfPre    []*Node // region of C03-vfor-on-if-member-vpre-tail: truthy first member carrying v-for, a later member carries v-pre
 	forSkipped  []*Node // region of C03-vfor-member-after-chosen-branch: an earlier member was chosen (v-else-if, or v-if with v-for) and the member directly before the v-else carries v-for
 	negated     bool
 	sibBefore   bool
 	sibAfter    bool
 	loopEmpty   bool
-	includes    int // include nodes evaluated
+	slotted     int  // slot uses evaluated
+	slotChain   bool // a chain evaluated inside slot content
+	slotTwice   bool
+	preMember   bool
+	onceMember  bool
+	laterDeco   bool          // an unchosen member after the chosen one carries v-pre / v-once / v-for
+	chosenN     map[*Node]int // how often each member was the chosen one
+	onceRepeat  []*Node       // v-once members chosen more than once: C16's subject, not asserted here
+	includes    int           // include nodes evaluated
 	maxProps    int
 	probes      int
 	propCond    bool // a condition names a component prop (p<k>) that is undefined where it is evaluated
@@ -161,12 +179,13 @@ type stats struct {
 }
 
 type model struct {
-	c  *Case
-	st *stats
+	c         *Case
+	st        *stats
+	slotDepth int
 }
 
 func newStats() *stats {
-	return &stats{ignore: map[string]bool{}, chose: map[string]int{}, seps: map[string]bool{}}
+	return &stats{ignore: map[string]bool{}, chose: map[string]int{}, seps: map[string]bool{}, chosenN: map[*Node]int{}}
 }
 
 // truthy evaluates a condition reference against the scope with the documented table.
@@ -239,6 +258,25 @@ func (m *model) eval(nodes []Node, sc scope, depth int, inLoop, inChain bool) []
 			}
 			out = append(out, Out{ID: n.M, Text: text})
 			prevChainEnd = false
+		case "slotted":
+			for _, it := range m.c.Lists[n.List] {
+				sc2 := scope{}
+				for k, v := range sc {
+					sc2[k] = v
+				}
+				sc2[n.Var] = it
+				m.slotDepth++
+				m.st.slotted++
+				kids := m.eval(n.Kids, sc2, depth+1, true, inChain)
+				if n.Twice {
+					m.st.slotTwice = true
+					m.st.slotted++
+					kids = append(kids, m.eval(n.Kids, sc2, depth+1, true, inChain)...)
+				}
+				m.slotDepth--
+				out = append(out, Out{ID: n.M, Text: "t" + n.M + "-" + it["id"].S, Kids: kids})
+			}
+			prevChainEnd = false
 		case "loop":
 			items := m.c.Lists[n.List]
 			if len(items) == 0 {
@@ -275,6 +313,9 @@ func (m *model) eval(nodes []Node, sc scope, depth int, inLoop, inChain bool) []
 			if inChain {
 				m.st.inChain = true
 			}
+			if m.slotDepth > 0 {
+				m.st.slotChain = true
+			}
 			if i > 0 && !isMember(nodes[i-1].Kind) && nodes[i-1].Kind != "if" {
 				m.st.sibBefore = true
 			}
@@ -293,6 +334,15 @@ func (m *model) eval(nodes []Node, sc scope, depth int, inLoop, inChain bool) []
 				if mem.For > 0 {
 					m.st.forMember = true
 				}
+				if mem.Pre {
+					m.st.preMember = true
+				}
+				if mem.Once {
+					m.st.onceMember = true
+				}
+				if chosen >= 0 && chosen < k && (mem.Pre || mem.Once || mem.For > 0) {
+					m.st.laterDeco = true
+				}
 				if chosen >= 0 {
 					continue
 				}
@@ -305,6 +355,7 @@ func (m *model) eval(nodes []Node, sc scope, depth int, inLoop, inChain bool) []
 			} else {
 				mem := &members[chosen]
 				m.st.chose[mem.Kind]++
+				m.st.chosenN[mem]++
 				if chosen > 0 && mem.For > 0 {
 					m.st.forElse = append(m.st.forElse, mem)
 				}
@@ -315,6 +366,13 @@ func (m *model) eval(nodes []Node, sc scope, depth int, inLoop, inChain bool) []
 			if last := len(members) - 1; last >= 2 && members[last].Kind == "else" && members[last-1].For > 0 &&
 				chosen >= 0 && chosen < last-1 && (chosen >= 1 || members[0].For > 0) {
 				m.st.forSkipped = append(m.st.forSkipped, &members[last-1])
+			}
+			if members[0].For > 0 && chosen == 0 {
+				for k := 1; k < len(members); k++ {
+					if members[k].Pre {
+						m.st.forIfPre = append(m.st.forIfPre, &members[k])
+					}
+				}
 			}
 			if members[0].For > 0 && chosen != 0 && len(members) > 1 && members[1].Kind == "elif" {
 				m.st.forIfElif = append(m.st.forIfElif, &members[0])
@@ -352,6 +410,11 @@ func (m *model) member(n *Node, sc scope, depth int, inLoop bool) []Out {
 func expect(c *Case) ([]Out, *stats) {
 	m := &model{c: c, st: newStats()}
 	out := m.eval(c.Nodes, scope{}, 0, false, false)
+	for n, k := range m.st.chosenN {
+		if n.Once && k > 1 {
+			m.st.onceRepeat = append(m.st.onceRepeat, n)
+		}
+	}
 	return out, m.st
 }
 
@@ -370,13 +433,20 @@ func sepText(s string) string {
 }
 
 func (n *Node) directive() string {
+	extra := ""
+	if n.Pre {
+		extra += ` v-pre`
+	}
+	if n.Once {
+		extra += ` v-once`
+	}
 	switch n.Kind {
 	case "if":
-		return ` v-if="` + n.Cond + `"`
+		return ` v-if="` + n.Cond + `"` + extra
 	case "elif":
-		return ` v-else-if="` + n.Cond + `"`
+		return ` v-else-if="` + n.Cond + `"` + extra
 	case "else":
-		return ` v-else`
+		return ` v-else` + extra
 	}
 	return ""
 }
@@ -392,6 +462,14 @@ func writeNodes(sb *strings.Builder, nodes []Node) {
 				fmt.Fprintf(sb, ` p%d="s%d"`, k, k)
 			}
 			sb.WriteString(`></template>`)
+		case n.Kind == "slotted":
+			comp := "slotfor.vuego"
+			if n.Twice {
+				comp = "slottwice.vuego"
+			}
+			fmt.Fprintf(sb, `<template include="%s" mk="%s" :items="%s"><template v-slot="{ %s }">`, comp, n.M, n.List, n.Var)
+			writeNodes(sb, n.Kids)
+			sb.WriteString(`</template></template>`)
 		case n.Kind == "probe":
 			fmt.Fprintf(sb, `<p data-m="%s" v-show="%s" :data-x="%s" :class="{k: %s}">t%s</p>`, n.M, n.Cond, n.Cond, n.Cond, n.M)
 		case n.Kind == "loop":
@@ -422,9 +500,16 @@ func writeNodes(sb *strings.Builder, nodes []Node) {
 // first prop (truthy there), so a correct engine renders <p data-m=mk>tmk</p>.
 const componentSource = `<p data-m="{{ mk }}" v-if="p0">t{{ mk }}</p><p data-m="{{ mk }}" v-else>no-p0</p>`
 
+// slotComponents use their default slot once (twice) per item, handing the item to the slot
+// content as scoped slot prop su (docs/syntax.md, Scoped Slots).
+var slotComponents = map[string]string{
+	"slotfor.vuego":   `<div data-m="{{ mk }}" v-for="it in items">t{{ mk }}-{{ it.id }}<slot :su="it"></slot></div>`,
+	"slottwice.vuego": `<div data-m="{{ mk }}" v-for="it in items">t{{ mk }}-{{ it.id }}<slot :su="it"></slot><slot :su="it"></slot></div>`,
+}
+
 func hasInclude(nodes []Node) bool {
 	for i := range nodes {
-		if nodes[i].Kind == "include" || hasInclude(nodes[i].Kids) {
+		if nodes[i].Kind == "include" || nodes[i].Kind == "slotted" || hasInclude(nodes[i].Kids) {
 			return true
 		}
 	}
